@@ -1,4 +1,5 @@
 import DclabModel.Lemmas.Filter
+import DclabModel.Lemmas.FilterX
 /-!
 # C03 — The combined event filter equals the specification of the current settings
 
@@ -388,5 +389,364 @@ example : runAll .f25 wChoice (fun s x y => s == 7 && vle (.fin 1) x && vle y (.
     = [some [false, true, false], some [true, false, true], some [false, true, false],
        some [true, true, true]] := by
   decide +kernel
+
+
+/-! ## Session 4: every exit of `update`, the ignored key, the global random state
+
+`updateX pk known` (`Model/FilterX.lean`) has all exits of `Filter.update`: `ValueError` for a
+forced name that is no scalar feature, `ValueError` for a half-set range, `KeyError` for a
+polygon filter whose axes are not in the dataset.  `pk = true` is the code after `fix-F73`
+(polygon axes validated before anything is recomputed), `pk = false` the code as found.
+For `pk = true` the guard `ValidHist` of the theorems above disappears: the statements hold
+for **all** histories. -/
+
+variable (known : Feat → Bool)
+
+/-- an extended operation that is a plain (non-apply) operation of the base model -/
+theorem stepX_plain (pk : Bool) (hd : (d.cols.map (fun e => e.1)).Nodup) (s : SysX) (bop : Op)
+    (hinv : Inv pip d s.sys.st) (hna : ∀ f, bop ≠ .apply f) :
+    Inv pip d (stepX pk known choice pip d s (.base bop)).1.sys.st ∧
+    (stepX pk known choice pip d s (.base bop)).1.sys.cfg
+      = (cfgStep s.sys.cfg s.sys.reg s.sys.st.manual bop).1 ∧
+    (stepX pk known choice pip d s (.base bop)).1.sys.reg
+      = (cfgStep s.sys.cfg s.sys.reg s.sys.st.manual bop).2.1 ∧
+    (stepX pk known choice pip d s (.base bop)).1.sys.st.manual
+      = (cfgStep s.sys.cfg s.sys.reg s.sys.st.manual bop).2.2.1 := by
+  have hs : (stepX pk known choice pip d s (.base bop)).1.sys
+      = (step .f25 choice pip d s.sys bop).1 := by
+    cases bop <;> first | rfl | exact absurd rfl (hna _)
+  have hv : (match (generalizing := false) bop with
+      | .apply _ => ValidAt d s.sys
+      | _ => True) := by
+    cases bop <;> first | trivial | exact absurd rfl (hna _)
+  obtain ⟨hi, hc, hr, hm, _⟩ := step_refines choice pip d hd s.sys bop hinv hv
+  rw [hs]
+  exact ⟨hi, hc, hr, hm⟩
+
+/-- what one `apply` does, stated on `stepX` -/
+theorem stepX_apply (pk : Bool) (hd : (d.cols.map (fun e => e.1)).Nodup) (s : SysX)
+    (force : List Feat) (hinv : Inv pip d s.sys.st)
+    (hg : pk = true ∨ ValidAt d s.sys) :
+    let r := stepX pk known choice pip d s (.base (.apply force))
+    Inv pip d r.1.sys.st ∧ r.1.sys.cfg = s.sys.cfg ∧ r.1.sys.reg = s.sys.reg ∧
+    r.1.sys.st.manual = s.sys.st.manual ∧
+    r.2 = applyOut known d s.sys.cfg s.sys.reg force ∧
+    (applyRaises known d s.sys.cfg s.sys.reg force = true →
+      r.2 ≠ .ok ∧ Untouched s.sys.st r.1.sys.st) ∧
+    (applyRaises known d s.sys.cfg s.sys.reg force = false →
+      r.2 = .ok ∧
+      r.1.sys.st.aAll = spec choice pip d s.sys.cfg s.sys.reg s.sys.st.manual ∧
+      r.1.sys.st.aBox = toList d.n (specBox d s.sys.cfg) ∧
+      r.1.sys.st.aPoly = toList d.n (specPoly pip d s.sys.cfg s.sys.reg) ∧
+      r.1.sys.st.aInv = toList d.n (invalidMask d s.sys.cfg.removeInvalid)) := by
+  intro r
+  obtain ⟨h1, h2, h3, h4, h5⟩ :=
+    updateX_spec pk known choice pip d hd s.sys.cfg s.sys.reg force s.sys.st hinv hg
+  exact ⟨h2, rfl, rfl, h3, h1, h4, h5⟩
+
+/-- **Refinement for all exits.** With the repaired code (`pk = true`) for *every* history, with
+the code as found (`pk = false`) for histories whose polygon filters have their axes in the
+dataset at each apply: every `apply` raises exactly when the stateless criterion `applyRaises`
+holds (unknown forced name, half-set range, polygon filter without its axes) and otherwise
+`all` equals `spec` of the settings current at that moment – whatever was attempted and
+failed before; `hierarchy parent` plays no role. -/
+theorem histories_refine_spec_guarded (pk : Bool) (hd : (d.cols.map (fun e => e.1)).Nodup) :
+    ∀ (ops : List OpX) (s : SysX), Inv pip d s.sys.st →
+      (pk = true ∨ ValidHistX pk known choice pip d s ops) →
+      runAllX pk known choice pip d s ops =
+        specAllX known choice pip d s.sys.cfg s.sys.reg s.sys.st.manual ops := by
+  intro ops
+  induction ops with
+  | nil => intro s _ _; rfl
+  | cons op ops ih =>
+    intro s hinv hg
+    have hg2 : pk = true ∨ ValidHistX pk known choice pip d
+        (stepX pk known choice pip d s op).1 ops := hg.elim Or.inl (fun h => Or.inr h.2)
+    cases op with
+    | setParent v =>
+      have := ih (stepX pk known choice pip d s (.setParent v)).1 hinv hg2
+      simp only [runAllX, specAllX]
+      exact this
+    | base bop =>
+      cases bop with
+      | apply force =>
+        have hg1 : pk = true ∨ ValidAt d s.sys := hg.elim Or.inl (fun h => Or.inr h.1)
+        obtain ⟨hi, hc, hr, hm, _, hR, hO⟩ :=
+          stepX_apply choice pip d known pk hd s force hinv hg1
+        have hrec := ih _ hi hg2
+        rw [hc, hr, hm] at hrec
+        simp only [runAllX, specAllX, specApplyX, cfgStep]
+        rw [hrec]
+        cases hh : applyRaises known d s.sys.cfg s.sys.reg force with
+        | true => simp [(hR hh).1]
+        | false => simp [(hO hh).1, (hO hh).2.1]
+      | reset =>
+        obtain ⟨hi, hc, hr, hm⟩ := stepX_plain choice pip d known pk hd s .reset hinv (fun f h => by cases h)
+        have hrec := ih _ hi hg2
+        rw [hc, hr, hm] at hrec
+        simp only [runAllX, specAllX]; exact hrec
+      | setKey f mx v =>
+        obtain ⟨hi, hc, hr, hm⟩ := stepX_plain choice pip d known pk hd s (.setKey f mx v) hinv (fun f h => by cases h)
+        have hrec := ih _ hi hg2
+        rw [hc, hr, hm] at hrec
+        simp only [runAllX, specAllX]; exact hrec
+      | popKey f mx =>
+        obtain ⟨hi, hc, hr, hm⟩ := stepX_plain choice pip d known pk hd s (.popKey f mx) hinv (fun f h => by cases h)
+        have hrec := ih _ hi hg2
+        rw [hc, hr, hm] at hrec
+        simp only [runAllX, specAllX]; exact hrec
+      | polySet id p =>
+        obtain ⟨hi, hc, hr, hm⟩ := stepX_plain choice pip d known pk hd s (.polySet id p) hinv (fun f h => by cases h)
+        have hrec := ih _ hi hg2
+        rw [hc, hr, hm] at hrec
+        simp only [runAllX, specAllX]; exact hrec
+      | polyAxes id ax ay =>
+        obtain ⟨hi, hc, hr, hm⟩ := stepX_plain choice pip d known pk hd s (.polyAxes id ax ay) hinv (fun f h => by cases h)
+        have hrec := ih _ hi hg2
+        rw [hc, hr, hm] at hrec
+        simp only [runAllX, specAllX]; exact hrec
+      | polyPoints id sh =>
+        obtain ⟨hi, hc, hr, hm⟩ := stepX_plain choice pip d known pk hd s (.polyPoints id sh) hinv (fun f h => by cases h)
+        have hrec := ih _ hi hg2
+        rw [hc, hr, hm] at hrec
+        simp only [runAllX, specAllX]; exact hrec
+      | polyInv id b =>
+        obtain ⟨hi, hc, hr, hm⟩ := stepX_plain choice pip d known pk hd s (.polyInv id b) hinv (fun f h => by cases h)
+        have hrec := ih _ hi hg2
+        rw [hc, hr, hm] at hrec
+        simp only [runAllX, specAllX]; exact hrec
+      | polyAdd id =>
+        obtain ⟨hi, hc, hr, hm⟩ := stepX_plain choice pip d known pk hd s (.polyAdd id) hinv (fun f h => by cases h)
+        have hrec := ih _ hi hg2
+        rw [hc, hr, hm] at hrec
+        simp only [runAllX, specAllX]; exact hrec
+      | polyRm id =>
+        obtain ⟨hi, hc, hr, hm⟩ := stepX_plain choice pip d known pk hd s (.polyRm id) hinv (fun f h => by cases h)
+        have hrec := ih _ hi hg2
+        rw [hc, hr, hm] at hrec
+        simp only [runAllX, specAllX]; exact hrec
+      | setInvalid b =>
+        obtain ⟨hi, hc, hr, hm⟩ := stepX_plain choice pip d known pk hd s (.setInvalid b) hinv (fun f h => by cases h)
+        have hrec := ih _ hi hg2
+        rw [hc, hr, hm] at hrec
+        simp only [runAllX, specAllX]; exact hrec
+      | setEnable b =>
+        obtain ⟨hi, hc, hr, hm⟩ := stepX_plain choice pip d known pk hd s (.setEnable b) hinv (fun f h => by cases h)
+        have hrec := ih _ hi hg2
+        rw [hc, hr, hm] at hrec
+        simp only [runAllX, specAllX]; exact hrec
+      | setLimit k =>
+        obtain ⟨hi, hc, hr, hm⟩ := stepX_plain choice pip d known pk hd s (.setLimit k) hinv (fun f h => by cases h)
+        have hrec := ih _ hi hg2
+        rw [hc, hr, hm] at hrec
+        simp only [runAllX, specAllX]; exact hrec
+      | manual i b =>
+        obtain ⟨hi, hc, hr, hm⟩ := stepX_plain choice pip d known pk hd s (.manual i b) hinv (fun f h => by cases h)
+        have hrec := ih _ hi hg2
+        rw [hc, hr, hm] at hrec
+        simp only [runAllX, specAllX]; exact hrec
+
+/-- **Headline, no guard left** (repaired code): for every dataset, `pip`, `choice`, every set
+of valid feature names, every coherent start state and **every** history – including applies
+that raise for any of the three reasons – each apply behaves as the stateless `specApplyX`. -/
+theorem all_histories_refine_spec (hd : (d.cols.map (fun e => e.1)).Nodup) (ops : List OpX)
+    (s : SysX) (hinv : Inv pip d s.sys.st) :
+    runAllX true known choice pip d s ops =
+      specAllX known choice pip d s.sys.cfg s.sys.reg s.sys.st.manual ops :=
+  histories_refine_spec_guarded choice pip d known true hd ops s hinv (Or.inl rfl)
+
+/-- the same for the code as found, under the guard that is needed there
+(`polygon_keyerror_witness` shows that it is needed) -/
+theorem today_refines_spec_partial (hd : (d.cols.map (fun e => e.1)).Nodup) (ops : List OpX)
+    (s : SysX) (hinv : Inv pip d s.sys.st) (hv : ValidHistX false known choice pip d s ops) :
+    runAllX false known choice pip d s ops =
+      specAllX known choice pip d s.sys.cfg s.sys.reg s.sys.st.manual ops :=
+  histories_refine_spec_guarded choice pip d known false hd ops s hinv (Or.inr hv)
+
+/-- the invariant after every history (repaired code, no guard) -/
+theorem historyX_inv (hd : (d.cols.map (fun e => e.1)).Nodup) :
+    ∀ (ops : List OpX) (s : SysX), Inv pip d s.sys.st →
+      Inv pip d (runX true known choice pip d s ops).sys.st := by
+  intro ops
+  induction ops with
+  | nil => intro s h; exact h
+  | cons op ops ih =>
+    intro s hinv
+    apply ih
+    cases op with
+    | setParent v => exact hinv
+    | base bop =>
+      by_cases hb : ∃ f, bop = .apply f
+      · obtain ⟨f, rfl⟩ := hb
+        exact (stepX_apply choice pip d known true hd s f hinv (Or.inl rfl)).1
+      · exact (stepX_plain choice pip d known true hd s bop hinv
+          (fun f h => hb ⟨f, h⟩)).1
+
+/-- **An apply that raises – for whatever reason – is harmless** (repaired code): after any
+history, an apply at settings for which `applyRaises` holds raises the exception `applyOut`
+names (`ValueError` for an unknown forced name or a half-set range, else `KeyError`), leaves
+`all`, `box`, `polygon`, the remembered settings and `manual` exactly as they were, and keeps
+the caches coherent. -/
+theorem raising_apply_harmless (hd : (d.cols.map (fun e => e.1)).Nodup) (ops : List OpX)
+    (force : List Feat)
+    (hh : applyRaises known d (runX true known choice pip d (SysX.init d.n) ops).sys.cfg
+            (runX true known choice pip d (SysX.init d.n) ops).sys.reg force = true) :
+    let s := runX true known choice pip d (SysX.init d.n) ops
+    let r := stepX true known choice pip d s (.base (.apply force))
+    r.2 = applyOut known d s.sys.cfg s.sys.reg force ∧ r.2 ≠ .ok ∧
+    Untouched s.sys.st r.1.sys.st ∧ Inv pip d r.1.sys.st := by
+  intro s r
+  have hinv := historyX_inv choice pip d known hd ops (SysX.init d.n) (inv_init pip d d.n)
+  obtain ⟨hi, _, _, _, ho, hR, _⟩ := stepX_apply choice pip d known true hd s force hinv (Or.inl rfl)
+  exact ⟨ho, (hR hh).1, (hR hh).2, hi⟩
+
+/-- after any history whatsoever (repaired code), an apply at acceptable settings succeeds and
+all four arrays equal their specification -/
+theorem apply_after_any_history (hd : (d.cols.map (fun e => e.1)).Nodup) (ops : List OpX)
+    (force : List Feat)
+    (hh : applyRaises known d (runX true known choice pip d (SysX.init d.n) ops).sys.cfg
+            (runX true known choice pip d (SysX.init d.n) ops).sys.reg force = false) :
+    let s := runX true known choice pip d (SysX.init d.n) ops
+    let r := stepX true known choice pip d s (.base (.apply force))
+    r.2 = .ok ∧
+    r.1.sys.st.aAll = spec choice pip d s.sys.cfg s.sys.reg s.sys.st.manual ∧
+    r.1.sys.st.aBox = toList d.n (specBox d s.sys.cfg) ∧
+    r.1.sys.st.aPoly = toList d.n (specPoly pip d s.sys.cfg s.sys.reg) ∧
+    r.1.sys.st.aInv = toList d.n (invalidMask d s.sys.cfg.removeInvalid) := by
+  intro s r
+  have hinv := historyX_inv choice pip d known hd ops (SysX.init d.n) (inv_init pip d d.n)
+  obtain ⟨_, _, _, _, _, _, hO⟩ := stepX_apply choice pip d known true hd s force hinv (Or.inl rfl)
+  exact hO hh
+
+/-- the exception kind is a function of the current settings alone -/
+theorem apply_error_kind (cfg : Cfg) (reg : Nat → Poly) (force : List Feat) :
+    (applyOut known d cfg reg force = .ok ↔ applyRaises known d cfg reg force = false) ∧
+    (applyOut known d cfg reg force = .errKey ↔
+      (force.all known = true ∧ anyHalf cfg.ranges = false ∧ polysOK d reg cfg.polys = false)) := by
+  unfold applyOut applyRaises
+  cases force.all known <;> cases anyHalf cfg.ranges <;> cases polysOK d reg cfg.polys <;> simp
+
+/-- states that differ only in the ignored key behave alike -/
+theorem stepX_parent_congr (pk : Bool) (s s' : SysX) (h : s.sys = s'.sys) (bop : Op) :
+    (stepX pk known choice pip d s (.base bop)).1.sys
+      = (stepX pk known choice pip d s' (.base bop)).1.sys ∧
+    (stepX pk known choice pip d s (.base bop)).2 = (stepX pk known choice pip d s' (.base bop)).2 := by
+  cases bop <;> simp [stepX, h]
+
+/-- **The key `hierarchy parent` never influences the filter**: erasing all assignments to it
+from a history (and starting with any other value of it) gives the same result for every
+apply – for both revisions of the code. -/
+theorem parent_key_ignored (pk : Bool) :
+    ∀ (ops : List OpX) (s s' : SysX), s.sys = s'.sys →
+      runAllX pk known choice pip d s ops = runAllX pk known choice pip d s' (dropParent ops) := by
+  intro ops
+  induction ops with
+  | nil => intro s s' _; rfl
+  | cons op ops ih =>
+    intro s s' h
+    cases op with
+    | setParent v =>
+      simp only [runAllX, dropParent]
+      exact ih _ s' h
+    | base bop =>
+      obtain ⟨h1, h2⟩ := stepX_parent_congr choice pip d known pk s s' h bop
+      have hrec := ih _ _ h1
+      cases bop <;> simp only [runAllX, dropParent] <;> rw [hrec]
+      rw [h1, h2]
+
+/-! ### the global random state -/
+
+theorem choiceAt_reseed {G : Type} (R : Rng G) (g : G) : R.choiceAt true g = R.pick := by
+  unfold Rng.choiceAt Rng.pick; simp
+
+/-- **Re-seeding makes the limit a pure function**: with the two re-seeding lines of
+`downsample_rand`, the limited selection does not depend on the state of the global generator
+on entry -/
+theorem limit_ignores_global_state {G : Type} (R : Rng G) (g g' : G) (limit : Nat)
+    (pre : List Bool) : limitG R true g limit pre = limitG R true g' limit pre := by
+  unfold limitG; rw [choiceAt_reseed, choiceAt_reseed]
+
+/-- **History-independence of the limited selection**: whatever state the global generator is
+in when each operation starts (`env`, arbitrary: other code may have drawn from it, earlier
+applies have), every apply of every history gives what the pure draw `R.pick` gives -/
+theorem limited_selection_ignores_global_rng {G : Type} (R : Rng G) (pk : Bool) :
+    ∀ (ops : List OpX) (env : Nat → G) (s : SysX),
+      runAllG R true pk known pip d env s ops = runAllX pk known R.pick pip d s ops := by
+  intro ops
+  induction ops with
+  | nil => intro _ _; rfl
+  | cons op ops ih =>
+    intro env s
+    cases op with
+    | setParent v => simp only [runAllG, runAllX, choiceAt_reseed]; exact ih _ _
+    | base bop => cases bop <;> simp only [runAllG, runAllX, choiceAt_reseed] <;> rw [ih]
+
+/-- … hence equal to the stateless specification evaluated with `R.pick`, for every
+history and every sequence of generator states (repaired code) -/
+theorem limited_selection_reproducible {G : Type} (R : Rng G)
+    (hd : (d.cols.map (fun e => e.1)).Nodup) (ops : List OpX) (env : Nat → G) (s : SysX)
+    (hinv : Inv pip d s.sys.st) :
+    runAllG R true true known pip d env s ops =
+      specAllX known R.pick pip d s.sys.cfg s.sys.reg s.sys.st.manual ops := by
+  rw [limited_selection_ignores_global_rng]
+  exact all_histories_refine_spec R.pick pip d known hd ops s hinv
+
+/-- a toy generator: state `g`, draws the `k` positions following `g mod n` -/
+def wRng : Rng Nat :=
+  { seed47 := 47, draw := fun g n k => (((List.range n).drop (g % n)).take k, g + 1) }
+
+/-- without the re-seeding lines the selection depends on what happened before -/
+theorem without_reseed_history_dependent :
+    limitG wRng false 0 1 [true, true, true] ≠ limitG wRng false 1 1 [true, true, true] ∧
+    limitG wRng true 0 1 [true, true, true] = limitG wRng true 1 1 [true, true, true] := by
+  constructor <;> decide +kernel
+
+/-! ### Witnesses for the error paths -/
+
+def wKnown : Feat → Bool := fun f => f < 100
+
+/-- **F73.** Range 1..2 on feature 0, apply; change it to 3..4 *and* add a polygon filter whose
+second axis (feature 5) is not in the dataset, apply (raises `KeyError`); remove the polygon
+filter, restore 1..2, apply. -/
+def wF73 : List OpX :=
+  [.base (.setKey 0 false (.fin 1)), .base (.setKey 0 true (.fin 2)), .base (.apply []),
+   .base (.setKey 0 false (.fin 3)), .base (.setKey 0 true (.fin 4)),
+   .base (.polySet 1 ⟨0, 5, 7, false⟩), .base (.polyAdd 1), .setParent 3, .base (.apply []),
+   .base (.polyRm 1), .base (.setKey 0 false (.fin 1)), .base (.setKey 0 true (.fin 2)),
+   .base (.apply [])]
+
+/-- In the code as found the `KeyError` leaves the recomputed box filter of feature 0 behind:
+the last `all` is `[F,F,T]` (range 3..4) although the settings say 1..2 (`[F,T,F]`).  The
+property is violated. -/
+theorem polygon_keyerror_witness :
+    runAllX false wKnown wChoice wPip wData (SysX.init 3) wF73
+      = [some [false, true, false], none, some [false, false, true]] ∧
+    specAllX wKnown wChoice wPip wData Cfg.default (Sys.init 3).reg (fun _ => true) wF73
+      = [some [false, true, false], none, some [false, true, false]] := by
+  constructor <;> decide +kernel
+
+/-- the repaired code gives the specification on the same history -/
+theorem polygon_keyerror_fixed :
+    runAllX true wKnown wChoice wPip wData (SysX.init 3) wF73
+      = [some [false, true, false], none, some [false, true, false]] := by
+  decide +kernel
+
+/-- the witness history is outside the guard of `today_refines_spec_partial` … -/
+example : ¬ ValidAt wData (runX false wKnown wChoice wPip wData (SysX.init 3) (wF73.take 8)).sys := by
+  unfold ValidAt; decide +kernel
+
+/-- … and the three kinds of raising applies really occur: unknown forced name (`ValueError`),
+half-set range (`ValueError`), polygon filter without its axes (`KeyError`); the history goes on -/
+example : (runAllX true wKnown wChoice wPip wData (SysX.init 3)
+      [.base (.setKey 0 false (.fin 1)), .base (.setKey 0 true (.fin 2)), .base (.apply [100]),
+       .base (.apply [0]), .base (.setKey 1 true (.fin 6)), .base (.apply []),
+       .base (.popKey 1 true), .base (.polySet 2 ⟨9, 0, 7, true⟩), .base (.polyAdd 2),
+       .base (.apply []), .base (.reset), .base (.apply [])]
+     = [none, some [false, true, false], none, none, some [false, true, false]]) ∧
+    applyOut wKnown wData Cfg.default (Sys.init 3).reg [100] = .errValue ∧
+    applyOut wKnown wData { Cfg.default with polys := [2] }
+      (fun _ => ⟨9, 0, 7, true⟩) [] = .errKey := by
+  refine ⟨?_, ?_, ?_⟩ <;> decide +kernel
+
 
 end DclabModel.C03
